@@ -69,6 +69,11 @@ CHECKS = {
    text="MPT.tla/MPTCache.tla/MPTDb.tla transcribe trie/trie.go (insert/delete/get with collapsing), the 32-byte embedding rule with exact RLP lengths, NodeIterator order and seek, Prove/VerifyProof, StackTrie, node flags/hashNodes/hasher/committer/reopen/Copy, and hashdb's reference-counted garbage collection; MPTRange.tla states VerifyRangeProof's contract. TLC checks that the trie after ANY history is the canonical trie of its content (root = function of content, order- and commit-independent), Get = last written, cached hashes never stale, dirtiness closed upwards, every committed / unreleased root stays readable under GC, the stack trie builds the canonical tree on prefix-free data, DeriveSha feeds keys in ascending order, every proof mutation yields error or the true value, only the true range claim is accepted. Every transition/case (0.9 M quick, 8.5 M thorough) is executed on the real trie package and compared on Get, iterator structure, root vs an independent RLP+keccak of the specified tree, StackTrie, node sets, reopened roots, Copy independence, content<->root bijection, proof/range outcomes, SecureTrie and DeriveSha; long random real runs are validated line by line by TLC.",
    note="Trusted: TLC, the driver's value mapping and its own RLP/hex-prefix code (keccak from lib/crypto), keccak collision-freeness; verifiers key proof nodes by their own hash. Named deviations kept as upstream: Prove on the empty trie returns no element, StackTrie panics outside prefix-free key sets, a key that is a prefix of others is iterated after them, range proofs only on equal-length keys with honest edge proofs. Bounds: <= 10 keys exhaustively; 31 keys to depth 3 plus sampled depth 16; cache and db histories <= 7 operations. Not covered: the VerifyRangeProof algorithm beyond its contract, difference/union iterators, Prove(fromLevel>0), clean cache, Cap(limit>0), concurrent use.",
    ref="§4-C07"),
+ "C15": dict(
+   engine="wal", category="model_checking", technique="TLA+ specification (WAL.tla: record-level model of consensus/wal.go over lib/autofile groups) model-checked with TLC; every transition replayed into the real BaseWAL with byte-exhaustive concretisation of each damage class (model-based testing); large random real logs validated by TLC (WALTrace.tla)",
+   text="On every history of <= 4 (quick) / <= 6 (thorough) records in 1-7 files (buffered and synced writes, all rotation points, total-size removal, restarts, process crashes) the real BaseWAL returns exactly the written messages, in order, across files; SearchForEndHeight finds a marker iff it is on disk (for markers written in increasing height order, as the consensus writer does; otherwise the known finding F-wal-search-nonincreasing applies) and positions the reader behind it. Every single damage (checksum, payload, length smaller / larger / above the limit, every cut region, garbage), realised at every byte offset and bit on sampled logs, yields the specified prefix followed by EOF or DataCorruptionError: never another message, a panic, or a payload buffer above maxMsgSizeBytes, and repairWalFile keeps exactly the longest valid prefix. Invariants checked by TLC: OrderKept, Durable, ReadExact, FlipsReported, RepairExact, SearchSound/Det/Complete, SyncIsDurable. Thorough tier: also traces of large seeded random logs with multi-byte corruption.",
+   note="Trusted: TLC, the driver's byte arithmetic and field rendering; CRC-32C detection beyond 32-bit bursts and no payload containing a valid frame at a desynchronised offset (probabilistic); damage is isolated; a process crash is modelled, not a power failure; the 40 KiB bufio buffer never spills in the drivers; heights >= 0. Disagreements where the statement allows both results (EOF vs corruption error) are infrastructure results (exit 2), never a violation. Not covered: the real ticker goroutine, fsync / power-loss semantics, records >= 40 KiB, more than two damages.",
+   ref="§4-C15"),
 }
 
 NOT_YET = {
